@@ -173,6 +173,9 @@ def object_tamperings(t, spec, rnd):
         segwit = spec['ins'][k]['kind'] in txgen.SEGWIT_KINDS
         yield ('in-amount-segwit:%d' if segwit else 'in-amount-legacy:%d') % k, \
             (lambda tt, k=k: setattr(tt.inputs[k], 'value', tt.inputs[k].value + 1)), segwit
+        if segwit:
+            # the amount becomes unknown (0): the digest cannot be built, the transaction must not verify
+            yield 'in-amount-zero:%d' % k, (lambda tt, k=k: setattr(tt.inputs[k], 'value', 0)), True
     yield 'locktime', (lambda tt: setattr(tt, 'locktime', tt.locktime ^ 1)), True
 
     def mut_ver(tt):
@@ -434,6 +437,17 @@ def phase_raw_tamper(col, case, spec, pos, rnd, raw_signed):
             lv, exc = lib_verify(t)
         except Exception as e:
             lv, exc = False, 'parse raised %r' % (e,)
+        if not rv and any(i['kind'] in txgen.SEGWIT_KINDS for i in spec['ins']):
+            # the same damaged bytes verified WITHOUT re-supplying the input amounts must not verify either
+            try:
+                from bitcoinlib.transactions import Transaction
+                lv0, _ = lib_verify(Transaction.parse(raw, network=spec['network']))
+            except Exception:
+                lv0 = False
+            col.probe('parse_mode_no_amounts')
+            if lv0:
+                col.violation(None, '[%s] UNSOUND after parse without input amounts: library verify() True, reference invalid' % label,
+                              dict(case, label=label), {'lib': True, 'raw': raw.hex()[:1500]}, {'ref': False})
         on_input = ':' in label and not label.startswith('raw-out-')
         kind = spec['ins'][int(label.split(':')[1])]['kind'] if on_input else 'tx'
         col.case('verdict/%s/%s' % (label.split(':')[0], 'valid' if rv else 'invalid'), nontrivial=(kind, 'parse', label.split(':')[0]))
